@@ -6,17 +6,43 @@ from checks import ddcommon
 
 META = {
     "title": "connectives / ite / constants / variables / eval / cofactors",
-    "technique": "Rocq proof over a Gallina model of apply (terminal cases + Shannon expansion + arbitrary cache) refining the pointwise spec layer; correspondence: every result of the real BDD/BCDD/ZBDD managers is lifted to a snapshot and compared, by the extracted interpreter and spec, on all assignments",
+    "technique": "Rocq proof over Gallina models of apply for the BDD and the complement-edge BDD (BCDD) kind (terminal cases + Shannon expansion + arbitrary cache; BCDD: reduce with tag normalisation, terminal_and/terminal_xor, the 8 operators derived by tag flips, ite, eval with complement parity, cofactors, var/const) refining the pointwise spec layer; correspondence: every result of the real BDD/BCDD/ZBDD managers is lifted to a snapshot and compared, by the extracted interpreter and spec, on all assignments; for BCDD additionally the extracted apply model is replayed on every snapshot and must return the real result edge itself",
     "category": "proof",
     "design_ref": "DESIGN.md section 5, C02",
-    "level_text": "Theorems (coq/Props/C02.v): the apply model with its terminal short-cuts returns, for every well-formed table, cache and operand tuple, an edge whose interpretation is the pointwise connective; eval-walk equals the interpretation; children are the Shannon cofactors. Tie to the code: all pairs of the 256 three-variable functions for each of the 8 binary operators, not, sampled ite triples, constants/variables, eval and cofactors, per kind (BDD, BCDD, ZBDD) under a seed-chosen variable order (all 6 in the thorough tier), random operands over 4..7 variables, 1/2/8 worker threads; each result is checked by the extracted sem on the lifted node table against the extracted spec.",
-    "level_note": "Trusted: Coq kernel, extraction, OCaml driver, Rust harness, public accessor API. The model of apply is hand-written; schedule independence of the parallel recursor is C07.",
+    "level_text": "Theorems (coq/Props/C02.v): the apply model with its terminal short-cuts returns, for every well-formed table, cache and operand tuple, an edge whose interpretation is the pointwise connective; eval-walk equals the interpretation; children are the Shannon cofactors - proved for the plain BDD kind (C02_*) and for the complement-edge kind (C02_bcdd_*: coq/DD/ApplyBcdd.v mirrors complement_edge/mod.rs and apply_rec.rs; not, and, or, nand, nor, xor, equiv, imp, imp_strict, ite, var, not_var, f, t, eval, cofactors; for every lossy cache and every operand order; the result is the unique edge of its function, so it does not depend on cache or history). ZBDD connectives: correspondence sweep here + the set-operation proofs of C09. Tie to the code: all pairs of the 256 three-variable functions for each of the 8 binary operators, not, sampled ite triples, constants/variables, eval and cofactors, per kind (BDD, BCDD, ZBDD) under a seed-chosen variable order (all 6 in the thorough tier), random operands over 4..7 variables, 1/2/8 worker threads; each result is checked by the extracted sem on the lifted node table against the extracted spec. BCDD cases are run a second time through ocaml/c02b_main.ml: every not/binary/ite/var/const/eval/cofactors operation is replayed by the extracted BCDD model on the lifted snapshot (every 8th also without cache and with the reverse operand order) and must yield the real result edge without needing a new node.",
+    "level_note": "Trusted: Coq kernel, extraction, OCaml drivers, Rust harness, public accessor API. The models of apply are hand-written (BDD: coq/DD/Apply.v, BCDD: coq/DD/ApplyBcdd.v); the ZBDD apply algorithms have no apply-level model here (set operations: C09); schedule independence of the parallel recursor is C07. The edge order f < g used by the BCDD code to normalise commutative operand pairs is a parameter of the model (theorems hold for every order).",
 }
 ALLOWED_AXIOMS = ()
 
 
+C02B_VOS = ddcommon.MODEL_VOS + ["DD/Build.vo", "DD/Apply.vo", "DD/ApplyBcdd.vo"]
+
+
 def build(ctx):
     return ddcommon.build_dd(ctx)
+
+
+def build_c02b(ctx):
+    """second driver (BCDD cases only): ocaml/c02b_main.ml linked against the extraction of
+    coq/Extract/ExC02b.v (DD/Table.v + DD/ApplyBcdd.v); same harness (h_dd)."""
+    pid = ctx.pid
+    ctx.pid = "C02b"
+    try:
+        drv = vf.ocaml_build(ctx, "ExC02b.v", "c02b_main.ml", extra_ml=["dd_types.ml"], model_vos=C02B_VOS)
+    finally:
+        ctx.pid = pid
+    bins = vf.cargo_build(["h_dd"])
+    return bins["h_dd"], drv
+
+
+class _c02b_driver:
+    """ddcommon.run_dd / replay_dd with the BCDD model driver"""
+    def __enter__(self):
+        self.orig = ddcommon.build_dd
+        ddcommon.build_dd = build_c02b
+
+    def __exit__(self, *a):
+        ddcommon.build_dd = self.orig
 
 
 def gen_cases(ctx):
@@ -44,11 +70,23 @@ def gen_cases(ctx):
 
 def run(ctx):
     cases = gen_cases(ctx)
+    # pass 1 (proof gate + BCDD model replay): the BCDD cases through the extracted model of
+    # coq/DD/ApplyBcdd.v; violations are reported here, the evidence is written by pass 2
+    bcdd = [c for c in cases if " kind=bcdd " in c[0] + " "]
+    with _c02b_driver():
+        ok_b, bad_b = ddcommon.run_dd(ctx, ["C02"], bcdd, rule="", allowed_axioms=ALLOWED_AXIOMS, drv_args=["--c02b"],
+                                      write_ev=False, debug_cases=None, sig_extra="bcdd-model")
     ddcommon.run_dd(
-        ctx, ["C02"], cases,
-        rule="per kind (bdd, bcdd, zbdd): all 65536 ordered pairs of the 256 three-variable functions for each of the 8 binary operators, not/eval/node_count/cofactors of all 256, sampled ite triples, constants and (negated) variables, under one seed-chosen order (quick) or all 6 (thorough); sampled pairs with 2 and 8 worker threads; random histories over 4..7 variables. non-trivial = case with >= 3 ops; distinct = distinct (header, op list)",
+        ctx, ["C02"], cases, proofs=False,
+        extra_cov={"bcdd_model_cases_ok": ok_b, "bcdd_model_cases_bad": len(bad_b)},
+        rule="per kind (bdd, bcdd, zbdd): all 65536 ordered pairs of the 256 three-variable functions for each of the 8 binary operators, not/eval/node_count/cofactors of all 256, sampled ite triples, constants and (negated) variables, under one seed-chosen order (quick) or all 6 (thorough); sampled pairs with 2 and 8 worker threads; random histories over 4..7 variables; the bcdd cases are additionally replayed operation by operation on the extracted BCDD apply model (correspondence_stats c02b_*). non-trivial = case with >= 3 ops; distinct = distinct (header, op list)",
         allowed_axioms=ALLOWED_AXIOMS)
 
 
 def replay(ctx, path):
-    ddcommon.replay_dd(ctx, path)
+    import json
+    if "--c02b" in json.load(open(path)).get("drv_args", []):
+        with _c02b_driver():
+            ddcommon.replay_dd(ctx, path)
+    else:
+        ddcommon.replay_dd(ctx, path)
